@@ -169,6 +169,15 @@ def attribute(side, probe, verdict, err):
                     return 'c09:loop:%s#%d' % (fn, l['ord']), frames
         return None, frames
     overflow = 'stack-overflow' in err or verdict.startswith('crash sig=11')
+    if not overflow:
+        # a sanitizer report: key = kind of report + first frame inside the repository's sources
+        m = re.search(r'ERROR: AddressSanitizer: ([A-Za-z-]+)', err)
+        kind = m.group(1) if m else ('ubsan' if 'runtime error:' in err else None)
+        if kind:
+            tail = err[err.find('runtime error:'):] if kind == 'ubsan' else err[m.start():]
+            fm = re.search(r'#\d+ 0x[0-9a-f]+ in (\w+) /repo/src/', tail) or re.search(r'#\d+ 0x[0-9a-f]+ in (\w+) \S*/src/', tail)
+            if fm:
+                return 'c09:san:%s:%s' % (kind, fm.group(1)), frames
     if overflow:
         cyc = cycle_functions(side)
         cnt = {}
@@ -227,7 +236,7 @@ def run(ck):
     nt, nb, ntf = (6000, 6000, 12) if ck.thorough else (1300, 1300, 3)
     cases += [('seed:' + n, b) for n, b in pool[:(200 if ck.thorough else 60)]]
     cases += mutants(ck, probes['plain'], pool, nt, nb, ntf)
-    ans = fl.run_probe(probes['asan'], [('front', 1500, b) for _, b in cases], jobs=14)
+    ans = fl.run_probe(probes['asan'], [('front', 800, b) for _, b in cases], jobs=14)
     dist = {}
     for (tag, b), a in zip(cases, ans):
         dist[tag.split(':')[0]] = dist.get(tag.split(':')[0], 0) + 1
@@ -240,7 +249,7 @@ def run(ck):
         for name, s in ladders(d).items():
             lcases.append(('ladder:%s:%d' % (name, d), s.encode()))
     lcases.append(('ladder:else-if:166000', ladders(166000)['else-if'].encode()))
-    lans = fl.run_probe(probes['asan'], [('front', 20000, b) for _, b in lcases], jobs=10, timeout=1200)
+    lans = fl.run_probe(probes['asan'], [('front', 8000, b) for _, b in lcases], jobs=14, timeout=1200)
     for (tag, b), a in zip(lcases, lans):
         ck.count(('ladder', tag), nontrivial=True)
         st = {}
@@ -328,8 +337,8 @@ def build_from_summaries(ck, side, probes):
         if not tpl:
             out[key] = 'no template (flagged by the summary only)'
             continue
-        reqs = [('front', 1500, tpl.format(tok=t).encode()) for t in REJECT_TOKENS]
-        ans = fl.run_probe(probes['plain'], reqs, jobs=4)
+        reqs = [('front', 700, tpl.format(tok=t).encode()) for t in REJECT_TOKENS]
+        ans = fl.run_probe(probes['plain'], reqs, jobs=1)
         hit = [t for t, a in zip(REJECT_TOKENS, ans) if fl.split_answer(a)[0].startswith('hang')]
         out[key] = dict(template=tpl, stuck_sub_parsers=l.get('stuck_calls'), hanging_tokens=hit)
         if hit:
@@ -344,13 +353,12 @@ def build_from_summaries(ck, side, probes):
             out['c09:cycle:' + fn] = 'no ladder template'
             continue
         res = None
-        for d in (100000, 166000):
-            src = ladders(d)[lad].encode()
-            a = fl.run_probe(probes['plain'], [('front', 30000, src)], jobs=1)
-            v = fl.split_answer(a[0])[0]
-            if v.startswith('crash') or v.startswith('hang'):
-                res = (d, v)
-                break
+        d = 166000 if lad == 'else-if' else 100000
+        src = ladders(d)[lad].encode()
+        a = fl.run_probe(probes['plain'], [('front', 30000, src)], jobs=1)
+        v = fl.split_answer(a[0])[0]
+        if v.startswith('crash') or v.startswith('hang'):
+            res = (d, v)
         out['c09:cycle:' + fn] = dict(ladder=lad, result=res and dict(depth=res[0], observed=res[1][:60]))
         if res:
             ck.fail(key, 'recursion through %s is not depth-guarded: ladder %s at depth %d: %s' % (fn, lad, res[0], res[1][:40]),
@@ -399,7 +407,7 @@ def nano_virt_sample(ck, cases, lcases):
             tag, src = sample[k]
             d = os.path.join(tmp, str(k)); os.makedirs(d)
             open(os.path.join(d, 's.nano'), 'wb').write(src)
-            rc, o, e = vlib.sh([b.bin('nano_virt'), 's.nano', '--emit-nvm', '-o', 'x.nvm'], timeout=20, cwd=d, env=env)
+            rc, o, e = vlib.sh([b.bin('nano_virt'), 's.nano', '--emit-nvm', '-o', 'x.nvm'], timeout=8, cwd=d, env=env)
             return k, rc, e
         with ThreadPoolExecutor(12) as ex:
             for k, rc, e in ex.map(one, range(len(sample))):
@@ -413,8 +421,15 @@ def nano_virt_sample(ck, cases, lcases):
                     continue
                 # a hang / sanitizer report / signal of the real tool: the same inputs went through front_probe above, where they are
                 # attributed; here only failures that front_probe did NOT show are new (import processing, code generation)
-                m = re.search(r'in (parse_\w+) ', e)
                 key = None
+                first = re.search(r'#\d+ 0x[0-9a-f]+ in (\w+) \S*/src/([\w/]+\.c):', e[e.find('ERROR: '):] if 'ERROR: ' in e else e[e.find('runtime error:'):])
+                if first and not re.match(r'(lexer|parser|typechecker|module|env|module_metadata)\.c$', first.group(2)):
+                    ck.note('nano_virt (ASan) fails outside the front end (%s in %s) on %s: not a C09 matter' % (first.group(1), first.group(2), tag))
+                    outc['outside-front-end'] = outc.get('outside-front-end', 0) + 1
+                    continue
+                if first and 'stack-overflow' not in e:
+                    k2, _ = attribute(load_side(), ck.probe('front_probe.c', 'asan'), 'crash exit=77', e)
+                    key = k2
                 if rc == -9 or 'stack-overflow' in e:
                     fns = re.findall(r' in (\w+) \S*parser\.c:(\d+)', e)
                     side = load_side()
@@ -452,7 +467,7 @@ def replay_entry(ck, probes, e):
     src = entry_source(e)
     if src is None:
         return False
-    a = fl.run_probe(probes['plain'], [('front', 30000 if len(src) > 10000 else 2000, src)], jobs=1)
+    a = fl.run_probe(probes['asan' if e.get('needs') == 'asan' else 'plain'], [('front', 30000 if len(src) > 10000 else 2000, src)], jobs=1)
     v = fl.split_answer(a[0])[0]
     return v.startswith('hang') or v.startswith('crash')
 
